@@ -192,117 +192,11 @@ func c26Check(p c26Params) func(x *vrt.Exec) (string, string, string) {
 				missing = append(missing, fmt.Sprintf("item handle %d (sub %d)", 100+k, k/p.Items))
 			}
 		}
-		// acknowledgements, from the wire: which (subscription, sequence number) the client received with
-		// notification data, and in which PublishRequests it acknowledged them with which result
 		msgs := decodeTap(vnet.Last().Tap)
-		type key struct{ sub, seq uint32 }
-		type incl struct {
-			req      uint32
-			conn     int
-			answered bool
-			status   ua.StatusCode
-			hasStat  bool
-		}
-		received := map[key]int{} // index of the (last) message that delivered it
-		recvCount := map[key]int{} // a restarted server re-uses subscription ids and sequence numbers: count the notifications per id
-		recvConn := map[key]int{}
-		sent := map[key][]*incl{} // PublishRequests that carried the acknowledgement, in wire order
-		type rk struct {
-			conn int
-			req  uint32
-		}
-		byReq := map[rk][]*incl{}
-		lastResp := -1
-		for i, m := range msgs {
-			switch v := m.Svc.(type) {
-			case *ua.PublishRequest:
-				if m.Dir != "c2s" {
-					continue
-				}
-				for _, a := range v.SubscriptionAcknowledgements {
-					in := &incl{req: m.ReqID, conn: m.Conn}
-					k := key{a.SubscriptionID, a.SequenceNumber}
-					sent[k] = append(sent[k], in)
-					byReq[rk{m.Conn, m.ReqID}] = append(byReq[rk{m.Conn, m.ReqID}], in)
-				}
-			case *ua.PublishResponse:
-				if m.Dir != "s2c" || !m.Consumed {
-					continue // a response the client never read does not count as an answer
-				}
-				lastResp = i
-				for j, in := range byReq[rk{m.Conn, m.ReqID}] {
-					in.answered = true
-					if j < len(v.Results) {
-						in.status, in.hasStat = v.Results[j], true
-					}
-				}
-				if v.NotificationMessage != nil && len(v.NotificationMessage.NotificationData) > 0 {
-					received[key{v.SubscriptionID, v.NotificationMessage.SequenceNumber}] = i
-					recvCount[key{v.SubscriptionID, v.NotificationMessage.SequenceNumber}]++
-					recvConn[key{v.SubscriptionID, v.NotificationMessage.SequenceNumber}] = m.Conn
-				}
-			case *ua.ServiceFault:
-				for _, in := range byReq[rk{m.Conn, m.ReqID}] {
-					in.answered = true
-					in.status, in.hasStat = ua.StatusBad, true // the whole request failed: acknowledging again is legitimate
-				}
-			}
-		}
-		// The last publish response the client read on a connection that broke afterwards may or may not
-		// have been processed (the request can fail with EOF although its response was read): an
-		// acknowledgement answered by it is not counted as made, so that acknowledging again is not a duplicate.
-		maxConn := 0
-		lastOn := map[int]uint32{}
-		for _, m := range msgs {
-			if m.Conn > maxConn {
-				maxConn = m.Conn
-			}
-			if _, ok := m.Svc.(*ua.PublishResponse); ok && m.Dir == "s2c" && m.Consumed {
-				lastOn[m.Conn] = m.ReqID
-			}
-		}
-		for conn, req := range lastOn {
-			if conn == maxConn {
-				continue
-			}
-			for _, in := range byReq[rk{conn, req}] {
-				in.answered = false
-			}
-		}
-		var twice, never []string
-		for k, idx := range received {
-			ins := sent[k]
-			// an acknowledgement counts as made once a request carrying it was answered without asking for a
-			// retry (Good, or the server reporting the message unknown, or no per-acknowledgement result at all)
-			made := 0
-			for _, in := range ins {
-				if !in.answered {
-					continue // the request was lost with the connection: sending the acknowledgement again is legitimate
-				}
-				if !in.hasStat || in.status == ua.StatusOK || in.status == ua.StatusBadSequenceNumberUnknown || in.status == ua.StatusBadSubscriptionIDInvalid {
-					made++
-				}
-			}
-			if made > recvCount[k] {
-				d := fmt.Sprintf("%d/%d received %dx acknowledged %dx:", k.sub, k.seq, recvCount[k], made)
-				for _, in := range ins {
-					d += fmt.Sprintf(" [req%d conn%d answered=%v status=%v]", in.req, in.conn, in.answered, in.status)
-				}
-				twice = append(twice, d)
-			}
-			if len(ins) == 0 {
-				// only a notification the client had the chance to acknowledge counts: further publish
-				// responses arrived after it, so further PublishRequests were sent
-				later := 0
-				for j := idx + 1; j <= lastResp; j++ {
-					if _, ok := msgs[j].Svc.(*ua.PublishResponse); ok && msgs[j].Dir == "s2c" && msgs[j].Conn == recvConn[k] {
-						later++
-					}
-				}
-				if later >= 3 {
-					never = append(never, fmt.Sprintf("%d/%d", k.sub, k.seq))
-				}
-			}
+		twice, never, nReceived := c26AckAudit(msgs)
+		received := map[int]int{}
+		for i := 0; i < nReceived; i++ {
+			received[i] = i
 		}
 		sort.Strings(twice)
 		sort.Strings(never)
@@ -395,4 +289,121 @@ func c26Scenarios(thorough bool) []driver.Scenario {
 		}
 	}
 	return out
+}
+
+// c26AckAudit replays the publish exchange seen on the wire and reports notifications that were
+// acknowledged (in a request the client saw answered without a retry being asked for) more often
+// than they were received, and notifications never acknowledged although later exchanges took place.
+func c26AckAudit(msgs []wireMsg) (twice, never []string, nReceived int) {
+	// acknowledgements, from the wire: which (subscription, sequence number) the client received with
+	// notification data, and in which PublishRequests it acknowledged them with which result
+	type key struct{ sub, seq uint32 }
+	type incl struct {
+		req      uint32
+		conn     int
+		answered bool
+		status   ua.StatusCode
+		hasStat  bool
+	}
+	received := map[key]int{}  // index of the (last) message that delivered it
+	recvCount := map[key]int{} // a restarted server re-uses subscription ids and sequence numbers: count the notifications per id
+	recvConn := map[key]int{}
+	sent := map[key][]*incl{} // PublishRequests that carried the acknowledgement, in wire order
+	type rk struct {
+		conn int
+		req  uint32
+	}
+	byReq := map[rk][]*incl{}
+	lastResp := -1
+	for i, m := range msgs {
+		switch v := m.Svc.(type) {
+		case *ua.PublishRequest:
+			if m.Dir != "c2s" {
+				continue
+			}
+			for _, a := range v.SubscriptionAcknowledgements {
+				in := &incl{req: m.ReqID, conn: m.Conn}
+				k := key{a.SubscriptionID, a.SequenceNumber}
+				sent[k] = append(sent[k], in)
+				byReq[rk{m.Conn, m.ReqID}] = append(byReq[rk{m.Conn, m.ReqID}], in)
+			}
+		case *ua.PublishResponse:
+			if m.Dir != "s2c" || !m.Consumed {
+				continue // a response the client never read does not count as an answer
+			}
+			lastResp = i
+			for j, in := range byReq[rk{m.Conn, m.ReqID}] {
+				in.answered = true
+				if j < len(v.Results) {
+					in.status, in.hasStat = v.Results[j], true
+				}
+			}
+			if v.NotificationMessage != nil && len(v.NotificationMessage.NotificationData) > 0 {
+				received[key{v.SubscriptionID, v.NotificationMessage.SequenceNumber}] = i
+				recvCount[key{v.SubscriptionID, v.NotificationMessage.SequenceNumber}]++
+				recvConn[key{v.SubscriptionID, v.NotificationMessage.SequenceNumber}] = m.Conn
+			}
+		case *ua.ServiceFault:
+			for _, in := range byReq[rk{m.Conn, m.ReqID}] {
+				in.answered = true
+				in.status, in.hasStat = ua.StatusBad, true // the whole request failed: acknowledging again is legitimate
+			}
+		}
+	}
+	// The last publish response the client read on a connection that broke afterwards may or may not
+	// have been processed (the request can fail with EOF although its response was read): an
+	// acknowledgement answered by it is not counted as made, so that acknowledging again is not a duplicate.
+	maxConn := 0
+	lastOn := map[int]uint32{}
+	for _, m := range msgs {
+		if m.Conn > maxConn {
+			maxConn = m.Conn
+		}
+		if _, ok := m.Svc.(*ua.PublishResponse); ok && m.Dir == "s2c" && m.Consumed {
+			lastOn[m.Conn] = m.ReqID
+		}
+	}
+	for conn, req := range lastOn {
+		if conn == maxConn {
+			continue
+		}
+		for _, in := range byReq[rk{conn, req}] {
+			in.answered = false
+		}
+	}
+	for k, idx := range received {
+		ins := sent[k]
+		// an acknowledgement counts as made once a request carrying it was answered without asking for a
+		// retry (Good, or the server reporting the message unknown, or no per-acknowledgement result at all)
+		made := 0
+		for _, in := range ins {
+			if !in.answered {
+				continue // the request was lost with the connection: sending the acknowledgement again is legitimate
+			}
+			if !in.hasStat || in.status == ua.StatusOK || in.status == ua.StatusBadSequenceNumberUnknown || in.status == ua.StatusBadSubscriptionIDInvalid {
+				made++
+			}
+		}
+		if made > recvCount[k] {
+			d := fmt.Sprintf("%d/%d received %dx acknowledged %dx:", k.sub, k.seq, recvCount[k], made)
+			for _, in := range ins {
+				d += fmt.Sprintf(" [req%d conn%d answered=%v status=%v]", in.req, in.conn, in.answered, in.status)
+			}
+			twice = append(twice, d)
+		}
+		if len(ins) == 0 {
+			// only a notification the client had the chance to acknowledge counts: further publish
+			// responses arrived after it, so further PublishRequests were sent
+			later := 0
+			for j := idx + 1; j <= lastResp; j++ {
+				if _, ok := msgs[j].Svc.(*ua.PublishResponse); ok && msgs[j].Dir == "s2c" && msgs[j].Conn == recvConn[k] {
+					later++
+				}
+			}
+			if later >= 3 {
+				never = append(never, fmt.Sprintf("%d/%d", k.sub, k.seq))
+			}
+		}
+	}
+	return twice, never, len(received)
 }
